@@ -22,7 +22,7 @@ func loadEngine(cs *Contracts, pkgPaths []string, overlay map[string][]byte) (*E
 		Mode:       packages.NeedName | packages.NeedFiles | packages.NeedSyntax | packages.NeedTypes | packages.NeedTypesInfo | packages.NeedImports,
 		Dir:        repoDir,
 		BuildFlags: []string{"-tags=purego,verif"},
-		Env:        append(os.Environ(), "GOFLAGS=", "GOWORK=off"),
+		Env:        append(os.Environ(), "GOFLAGS="), // workspace mode (go.work + go.work.sum) as the repository itself builds
 		Overlay:    overlay,
 	}
 	pkgs, err := packages.Load(cfg, pkgPaths...)
